@@ -112,6 +112,7 @@ type scenario struct {
 	Sess    int    `json:"sessions"`
 	DelayPM int    `json:"gate_delay_permille"`
 	PrePush int    `json:"pushes_sent_by_closing_side_before"` // earlier one-way traffic of the closing side on the same sessions
+	AgeMS   int    `json:"closing_side_session_age_ms"`        // > 0: the closing side's sessions have this age; it runs out while Close() waits for the handlers
 }
 
 type viol struct{ sym, what string }
@@ -129,8 +130,9 @@ func runScenario(id string, sc scenario, r *core.Rand) {
 		gates.SetDelay(int64(r.Uint64()>>1), sc.DelayPM)
 	}
 	// X closes; Y is the other side
-	px := erpc.NewPeer(erpc.PeerConfig{})
+	px := erpc.NewPeer(erpc.PeerConfig{DefaultSessionAge: time.Duration(sc.AgeMS) * time.Millisecond})
 	py := erpc.NewPeer(erpc.PeerConfig{})
+	connected := time.Now()
 	route := px.RouteCallFunc(H)
 	py.RouteCallFunc(H)
 	proute := px.RoutePushFunc(HP)
@@ -269,6 +271,31 @@ func runScenario(id string, sc scenario, r *core.Rand) {
 	if sc.Point != "random" {
 		settle() // Close is now waiting (or has wrongly returned)
 	}
+	if sc.AgeMS > 0 {
+		// the scenario needs Close() to have been called while the session was still within its age (otherwise the
+		// session simply ended by age before the close: not a graceful close, nothing to judge) ...
+		age := time.Duration(sc.AgeMS) * time.Millisecond
+		if time.Since(connected) > age-200*time.Millisecond {
+			if trap != nil {
+				trap.Release()
+			}
+			cs.mu.Lock()
+			if cs.hold != nil {
+				close(cs.hold)
+				cs.hold = nil
+			}
+			cs.mu.Unlock()
+			<-closed
+			settle()
+			gates.Reset()
+			core.Result(core.R{ID: id, Verdict: core.Inconclusive, What: "ordering infeasible: the session age ran out before Close() was waiting"})
+			return
+		}
+		// ... and the age to run out while Close() waits for the parked handlers
+		time.Sleep(time.Until(connected.Add(age + 400*time.Millisecond)))
+		settle()
+		core.Add("closes_outlasting_the_session_age", 1)
+	}
 	// a second, concurrent Close() of the same sessions must wait just like the first one
 	var close2Ret int64
 	closed2 := make(chan struct{})
@@ -393,7 +420,7 @@ func runScenario(id string, sc scenario, r *core.Rand) {
 	core.Add("calls_genuine_reply", int64(nOK))
 	py.Close()
 	px.Close()
-	sig := fmt.Sprintf("%s/%s/%s/k%d+%d/s%d/d%d/pp%d", sc.Proto, sc.Point, sc.Closer, sc.K, sc.K2, sc.Sess, sc.DelayPM, sc.PrePush)
+	sig := fmt.Sprintf("%s/%s/%s/k%d+%d/s%d/d%d/pp%d", sc.Proto, sc.Point, sc.Closer, sc.K, sc.K2, sc.Sess, sc.DelayPM, sc.PrePush) + fmt.Sprintf("/age%d", sc.AgeMS)
 	if len(vs) == 0 {
 		nontrivial := nEntered > 0 || sc.K2 > 0
 		if nontrivial {
@@ -474,6 +501,14 @@ func main() {
 						scs = append(scs, scenario{Proto: pn, K: k[0], K2: k[1], Point: pt, Closer: cl, Class: "placed", Sess: sess, DelayPM: 200})
 					}
 				}
+			}
+		}
+	}
+	// the closing side's session age runs out while Close() waits for handlers that were entered before it
+	for _, pn := range protosQ {
+		for _, pt := range []string{"handlecall.enter", "inside", "handlecall.beforeReply"} {
+			for _, cl := range []string{"session", "peer"} {
+				scs = append(scs, scenario{Proto: pn, K: 3, K2: 0, Point: pt, Closer: cl, Class: "placed-age", Sess: 1, AgeMS: 1500})
 			}
 		}
 	}
